@@ -1179,7 +1179,7 @@ func (p *Parser) parsePropertyName(in string) (propertyName PropertyName) {
 		// reinterpret string as identifier or number if we can, except for empty strings
 		if isIdent := AsIdentifierName(p.data[1 : len(p.data)-1]); isIdent {
 			propertyName.Literal = LiteralExpr{IdentifierToken, p.data[1 : len(p.data)-1]}
-		} else if isNum := AsDecimalLiteral(p.data[1 : len(p.data)-1]); isNum {
+		} else if isNum := AsDecimalLiteral(p.data[1 : len(p.data)-1]); isNum && isCanonicalDecimal(p.data[1:len(p.data)-1]) {
 			propertyName.Literal = LiteralExpr{DecimalToken, p.data[1 : len(p.data)-1]}
 		} else {
 			propertyName.Literal = LiteralExpr{p.tt, p.data}
@@ -1199,6 +1199,17 @@ func (p *Parser) parsePropertyName(in string) (propertyName PropertyName) {
 		return
 	}
 	return
+}
+
+// isCanonicalDecimal returns true if the decimal literal is the string that its number value converts to, so that '1.5' is the same property name as 1.5 but '1.0', '.5' and '1.' are not.
+func isCanonicalDecimal(b []byte) bool {
+	if 15 < len(b) || b[0] == '.' {
+		return false // may not be represented exactly
+	}
+	if bytes.IndexByte(b, '.') != -1 {
+		return b[len(b)-1] != '0' && b[len(b)-1] != '.'
+	}
+	return true
 }
 
 func (p *Parser) parseBindingElement(decl DeclType) (bindingElement BindingElement) {
